@@ -130,7 +130,9 @@ TwinChecks(r) ==
                  [] r.rel = "perm" -> LET amp == IF Len(r.amp) = 0 THEN FZero ELSE r.amp[i]
                                       IN  IF r.fine < 0 THEN PermFineA(fa, fb, Field(r.R, fa.name).t, cax, r.pi, r.slack, r.fine, amp)
                                           ELSE PermFieldA(fa, fb, cax, r.pi, r.slack, amp)
-                 [] r.rel = "slice" -> SliceField(fa, fb, r.lead, r.slack)>>]
+                 [] r.rel = "slice" -> LET amp == IF Len(r.amp) = 0 THEN FZero ELSE r.amp[i]
+                                       IN  IF r.fine < 0 THEN SliceFineA(fa, fb, Field(r.R, fa.name).t, r.lead, r.slack, r.fine, amp)
+                                           ELSE SliceFieldA(fa, fb, r.lead, r.slack, amp)>>]
 \* non-trivial: perm: pi not the identity and the classes differ; slice: >= 2 differing slices (driver flag
 \* cross-checked: the compared field has > 1 element); same: the transformation was non-trivial (driver)
 TwinNT(r) == /\ r.exc = "" /\ Len(r.A) > 0
@@ -261,13 +263,38 @@ EigCov(r, uname, lname, ld, k, a, b) ==
                                              ZMul(FieldAt(r, uname, ld \o <<k, a, e - 1>>), ZConj(FieldAt(r, uname, ld \o <<k, b, e - 1>>))))
                                IN  <<ZAdd(acc[1], t), FAdd(acc[2], ZL1(t))>>,
                <<ZZero, FZero>>, [e \in 1..D |-> e])
+\* cACG (Tyler step with the documented normalisation and flooring): with S = sum_n g_n z_n z_n^H / q_n, every stored
+\* eigenvector u_e satisfies S u_e = ray_e u_e (ray_e = u_e^H S u_e), and the stored eigenvalues are
+\*    'eigenvalue' : max(ray_e / ray_max, floor)
+\*    'trace'      : max(ray_e, floor ray_max) / tr S            (unit trace before flooring, RELATIVE floor)
+\*    none         : D max(ray_e, floor ray_max) / mass          (RELATIVE floor)
 CacgMStep(r) ==
   \A i \in 1..Len(LeadIdx(r)) : \A k \in 0..(KOf(r) - 1) :
-     LET ld == LeadIdx(r)[i]
+     LET ld == LeadIdx(r)[i] D == DOf(r)
          invq(n) == FDiv(FOne, IF r.has_qf THEN Get(r.qf, ld \o <<k, n>>) ELSE FOne)
-     IN  Mass(r, ld, k) # FZero =>
-           Proportional(LAMBDA a, b : ScatterS(r, ld, k, a, b, invq),
-                        LAMBDA a, b : EigCov(r, "cacg_eigenvectors", "cacg_eigenvalues", ld, k, a, b), DOf(r), MS)
+         S(a, b) == ScatterS(r, ld, k, a, b, invq)
+         u(a, e) == FieldAt(r, "cacg_eigenvectors", ld \o <<k, a, e>>)
+         lam(e) == FieldAt(r, "cacg_eigenvalues", ld \o <<k, e>>)
+         Su(a, e) == LET terms == [b \in 1..D |-> ZMul(S(a, b - 1)[1], u(b - 1, e))]
+                         scs == [b \in 1..D |-> FMul(S(a, b - 1)[2], ZL1(u(b - 1, e)))]
+                     IN  <<ZSum(terms), FSum(scs)>>
+         ray(e) == ZSum([a \in 1..D |-> ZMul(ZConj(u(a - 1, e)), Su(a - 1, e)[1])])[1]
+         rays == [e \in 1..D |-> ray(e - 1)]
+         raymax == FMaxSeq(rays)
+         trS == FSum(rays)
+         sc == FSum([a \in 1..D |-> S(a - 1, a - 1)[2]])           \* sum of |terms| on the diagonal: error scale of every ray
+         tgt(e) == LET f == FMul(r.floor, raymax) IN IF FLt(ray(e), f) THEN f ELSE ray(e)
+         mass == Mass(r, ld, k)
+     IN  (mass # FZero /\ FSgn(raymax) > 0) =>
+           /\ Proportional(LAMBDA a, b : S(a, b),
+                           LAMBDA a, b : EigCov(r, "cacg_eigenvectors", "cacg_eigenvalues", ld, k, a, b), D, MS)
+              \/ \E e \in 0..(D - 1) : FLt(ray(e), FMul(FMul(r.floor, raymax), FInt(2)))      \* flooring active: see below
+           /\ \A e \in 0..(D - 1) : \A a \in 0..(D - 1) :
+                 ZClose(Su(a, e)[1], ZScale(ray(e), u(a, e)), FAdd(Su(a, e)[2], FMul(FAbs(ray(e)), ZL1(u(a, e)))), MS)
+           /\ \A e \in 0..(D - 1) :
+                 CASE r.norm = "eigenvalue" -> Close(FMul(lam(e), raymax), tgt(e), FAdd(sc, FMul(lam(e), raymax)), MS)
+                   [] r.norm = "trace" -> Close(FMul(lam(e), trS), tgt(e), FAdd(sc, FMul(lam(e), trS)), MS)
+                   [] OTHER -> Close(FMul(lam(e), mass), FMul(FInt(D), tgt(e)), FAdd(FMul(FInt(D), sc), FMul(lam(e), mass)), MS)
 \* Watson: mode is an eigenvector of the weighted scatter S with eigenvalue ell = w^H S w / mass, maximal on probes;
 \* r.watson_ratio[i] (kernel table from mpmath) = hypergeometric ratio at the returned concentration
 WatsonMStep(r) ==
